@@ -27,6 +27,7 @@ import (
 	"log/slog"
 	"os"
 	"path/filepath"
+	"runtime"
 	"sort"
 	"strconv"
 	"strings"
@@ -35,6 +36,7 @@ import (
 	"syscall"
 	"time"
 
+	"github.com/jdillenkofer/pithos/internal/storage"
 	"github.com/jdillenkofer/pithos/internal/storage/database"
 	"github.com/jdillenkofer/pithos/internal/verifhook"
 	"github.com/jdillenkofer/pithos/verifharness/pdrv"
@@ -52,6 +54,8 @@ func must(err error) {
 
 var keys = []string{"k1", "k2"}
 
+var backgroundLoops = []string{"RunGCLoop", "dispatchLoop", "healScanLoop", "processOutbox", "outboxLoop", "maybeProcessOutboxEntries"}
+
 func interp(b *stacks.Built) *pdrv.Interp {
 	w, err := vtrace.Create(os.DevNull)
 	must(err)
@@ -62,7 +66,32 @@ func interp(b *stacks.Built) *pdrv.Interp {
 
 // storeDirs: logical part store (value of parts.part_store_name, "" = default) -> directories.
 // Mirrors harness/stacks (and StoreCfg of TxFs.tla).
+// A stack name with the suffix "-notif" is the base stack with the notification middleware in
+// front (stacks.MetadataPartJSON(base, dir, true)): every mutation then runs nested in the
+// middleware's outer transaction.
+func baseStack(stack string) (string, bool) {
+	if strings.HasSuffix(stack, "-notif") {
+		return strings.TrimSuffix(stack, "-notif"), true
+	}
+	return stack, false
+}
+
+func stackJSON(stack, dir string) string {
+	base, notif := baseStack(stack)
+	cfg, err := stacks.MetadataPartJSON(base, dir, notif)
+	must(err)
+	return cfg
+}
+
+func openStack(stack, dir string) *stacks.Built {
+	must(os.MkdirAll(dir, 0o755))
+	b, err := stacks.OpenJSON([]byte(stackJSON(stack, dir)))
+	must(err)
+	return b
+}
+
 func storeDirs(stack string) map[string][]string {
+	stack, _ = baseStack(stack)
 	switch stack {
 	case "fs":
 		return map[string][]string{"": {"parts"}}
@@ -126,7 +155,44 @@ func resolveUpload(it *pdrv.Interp, c pdrv.Call) {
 	}
 }
 
+// Calls pdrv does not know: the bucket notification rule of the "-notif" stacks and the bulk delete.
+// Bucket and key names are pdrv's ("p<program>-<bucket>", "key/<key>").
+func execOwn(it *pdrv.Interp, c pdrv.Call) (string, bool) {
+	op, _ := c["op"].(string)
+	bucket := storage.MustNewBucketName(fmt.Sprintf("p%d-%s", it.Prog(), c["b"]))
+	ctx := context.Background()
+	switch op {
+	case "PutNotification":
+		events := []string{}
+		for _, e := range c["events"].([]any) {
+			events = append(events, e.(string))
+		}
+		id := "verif-rule"
+		cfg := &storage.BucketNotificationConfiguration{TopicConfigurations: []storage.NotificationConfigurationRule{{
+			ID: &id, DestinationType: storage.NotificationDestinationTopic, DestinationARN: "arn:aws:sns:us-east-1:000000000000:verif-nowhere", Events: events}}}
+		return pdrv.ErrKind(it.St.PutBucketNotificationConfiguration(storage.WithSkipNotificationDestinationValidation(ctx), bucket, cfg)), true
+	case "DeleteObjects":
+		entries := []storage.DeleteObjectsInputEntry{}
+		for _, k := range c["keys"].([]any) {
+			entries = append(entries, storage.DeleteObjectsInputEntry{Key: storage.MustNewObjectKey("key/" + k.(string))})
+		}
+		res, err := it.St.DeleteObjects(ctx, bucket, entries)
+		if err == nil {
+			for _, e := range res.Entries {
+				if !e.Deleted {
+					return "entry-not-deleted:" + e.ErrCode, true
+				}
+			}
+		}
+		return pdrv.ErrKind(err), true
+	}
+	return "", false
+}
+
 func exec(it *pdrv.Interp, c pdrv.Call) string {
+	if e, own := execOwn(it, c); own {
+		return e
+	}
 	resolveUpload(it, c)
 	errKind := "?"
 	it.Hook = func(ev map[string]any) { errKind = ev["res"].(map[string]any)["err"].(string) }
@@ -139,8 +205,7 @@ func setup(stack, dir, callsFile string) {
 	must(err)
 	var calls []pdrv.Call
 	must(json.Unmarshal(raw, &calls))
-	b, err := stacks.Open(stack, dir)
-	must(err)
+	b := openStack(stack, dir)
 	it := interp(b)
 	for i, c := range calls {
 		if e := exec(it, c); e != "" {
@@ -158,18 +223,11 @@ func run(stack, dir, callFile, pointsFile string, crashAt int) {
 	must(json.Unmarshal(raw, &c))
 	pf, err := os.OpenFile(pointsFile, os.O_CREATE|os.O_TRUNC|os.O_WRONLY, 0o644)
 	must(err)
-	started := time.Now()
-	b, err := stacks.Open(stack, dir)
-	must(err)
+	b := openStack(stack, dir)
 	it := interp(b)
 	resolveUpload(it, c)
-	// The collector's loop first wakes 30 s after Start; an operation that starts later could
-	// share the process with a collection whose transactions would be counted as well.
-	if time.Since(started) > 20*time.Second {
-		must(fmt.Errorf("machine too slow: %v between Start and the operation", time.Since(started)))
-	}
 	var mu sync.Mutex
-	var opTx *database.TxController
+	var opTx *sql.Tx
 	n := 0
 	verifhook.SetHandler(func(point string, fault bool, kv []any) error {
 		if len(kv) == 0 {
@@ -184,17 +242,24 @@ func run(stack, dir, callFile, pointsFile string, crashAt int) {
 		if tc == nil || tc.ReadOnly() {
 			return nil
 		}
+		// Background workers of the storage (garbage collector, notification dispatcher, outbox
+		// and heal loops) run write transactions of their own; they are recognised by the loop
+		// function on the calling goroutine's stack and are not part of the operation.
+		stk := make([]byte, 1<<14)
+		stk = stk[:runtime.Stack(stk, false)]
+		for _, loop := range backgroundLoops {
+			if strings.Contains(string(stk), loop) {
+				return nil
+			}
+		}
 		mu.Lock()
 		defer mu.Unlock() // held while dying: no other goroutine passes a point
-		// Only the operation's own write transaction counts: it is the first one seen (SQLite has a
-		// single writer, the operation started right after the handler was installed).  A later
-		// write transaction in this process can only be the garbage collector's (its loop wakes
-		// 30 s after Start on a very slow machine) and is not part of the operation.
+		// Everything left must be ONE SQL transaction (a nested call shares the outer one's).
 		if opTx == nil {
-			opTx = tc
+			opTx = tc.SqlTx()
 		}
-		if tc != opTx {
-			return nil
+		if tc.SqlTx() != opTx {
+			must(fmt.Errorf("hook point %s of a second write transaction during the operation:\n%s", point, stk))
 		}
 		n++
 		if _, err := pf.WriteString(point + "\n"); err != nil {
@@ -421,8 +486,7 @@ func hashOf(v any) string {
 }
 
 func observe(stack, dir, outFile string) {
-	b, err := stacks.Open(stack, dir)
-	must(err)
+	b := openStack(stack, dir)
 	// directories first: reads may repair shards (erasure coding heals on read)
 	raw, cls := listDirs(stack, dir, referencedIds(b, stack))
 	full, view := project(b)
@@ -448,8 +512,7 @@ func (h gcHandler) WithGroup(string) slog.Handler      { return h }
 func gcMode(stack, dir, outFile string) {
 	var done atomic.Int64
 	slog.SetDefault(slog.New(gcHandler{&done}))
-	cfg, err := stacks.MetadataPartJSON(stack, dir, false)
-	must(err)
+	cfg := stackJSON(stack, dir)
 	cfg = strings.Replace(cfg, `"gcIntervalSeconds":86400`, `"gcIntervalSeconds":1,"gcGraceWindowSeconds":1`, 1)
 	if !strings.Contains(cfg, `"gcGraceWindowSeconds":1`) {
 		must(fmt.Errorf("could not set the GC grace window in the stack configuration"))
@@ -465,8 +528,7 @@ func gcMode(stack, dir, outFile string) {
 		time.Sleep(50 * time.Millisecond)
 	}
 	b.Close()
-	b, err = stacks.Open(stack, dir)
-	must(err)
+	b = openStack(stack, dir)
 	raw, cls := listDirs(stack, dir, referencedIds(b, stack))
 	full, view := project(b)
 	b.Close()
